@@ -359,7 +359,7 @@ func c06ContiguousWriter(c *Ctx, rule string, f *ssa.Function, firstIdxCall *ssa
 		n.Const++
 		// (a) dense window: elements minIndex−offset … maxIndex−offset, announced first = minIndex, count = maxIndex−minIndex+1
 		if isWindowRange(fe, le, func(t *Term) bool { return t.isParam(0) }) {
-			okFirst := first.Op == "field" && first.Sym == "minIndex" && first.Args[0].isParam(0)
+			okFirst := first.Op == "field" && first.Sym == dr.minIndex && first.Args[0].isParam(0)
 			okCount := false
 			if count != nil {
 				if count.Op == "param" {
@@ -406,7 +406,7 @@ func c06CallerCount(c *Ctx, f *ssa.Function, count *Term) bool {
 						good := len(inner.Coef) == 2 && inner.Const == 0
 						for k, v := range inner.Coef {
 							t := inner.Atoms[k]
-							if !(t.Op == "field" && t.Args[0].isParam(0) && (t.Sym == "maxIndex" && v == 1 || t.Sym == "minIndex" && v == -1)) {
+							if !(t.Op == "field" && t.Args[0].isParam(0) && (t.Sym == dr.maxIndex && v == 1 || t.Sym == dr.minIndex && v == -1)) {
 								good = false
 							}
 						}
@@ -416,7 +416,7 @@ func c06CallerCount(c *Ctx, f *ssa.Function, count *Term) bool {
 					good := len(l.Coef) == 2 && l.Const == 1
 					for k, v := range l.Coef {
 						t := l.Atoms[k]
-						if !(t.Op == "field" && t.Args[0].isParam(0) && (t.Sym == "maxIndex" && v == 1 || t.Sym == "minIndex" && v == -1)) {
+						if !(t.Op == "field" && t.Args[0].isParam(0) && (t.Sym == dr.maxIndex && v == 1 || t.Sym == dr.minIndex && v == -1)) {
 							good = false
 						}
 					}
